@@ -335,6 +335,22 @@ func (l *ledger) step(rng *rand.Rand, out *Out) {
 			out.Count("history:undelegate")
 		}
 	}
+	if rng.Intn(8) == 0 {
+		// a momentum exactly at the start of a tick (slot 0), the rest of that tick missed: the frontier's timestamp IS the
+		// proof time of the tick after the next (boundary of "the last momentum before the proof time")
+		fts := int64(frontierOf(nd.Ch).TimestampUnix)
+		dt := 300 - (fts-genesisTs)%300
+		if err := produceAt(nd, dt); err != nil {
+			panic(err)
+		}
+		l.record()
+		if err := produceAt(nd, 300+10*int64(rng.Intn(30))); err != nil {
+			panic(err)
+		}
+		l.record()
+		out.Count("history:momentum-at-tick-start-then-tick-missed")
+		return
+	}
 	if rng.Intn(4) == 0 {
 		nd.Momentum()
 	} else if err := produceAt(nd, randDt(rng)); err != nil {
